@@ -16,7 +16,7 @@ RULE = ('the C09 histories with lifecycle hooks on every entity whose behaviour 
         'statement; edits and creations made in before_* hooks are part of the model, so dumps and reads must show '
         'them after the same flush. Non-trivial and distinct as for C09 (hook mode is part of the identity).')
 
-MODES = ('log', 'read', 'modify', 'create', 'link')
+MODES = ('log', 'read', 'modify', 'create', 'link', 'after_edit')
 
 
 def main(tier, seed):
